@@ -49,6 +49,56 @@ var configs = []struct {
 	{"small-segments-3", map[string][]string{"data": {"max-rows-per-segment = 3"}}},
 }
 
+// genDenseHistory: two series with many rows each in ONE ordered file (several full
+// segments under the small-segment configurations), late rows for one of them that fall
+// into the later segments only, flushed to an out-of-order file, then the out-of-order
+// merge (leading full segments are written through untouched), a full compaction, with a
+// check point after every reorganisation. Every key is written once.
+func genDenseHistory(r *rand.Rand, idx int) *history {
+	h := &history{Index: idx, Kind: "dense-merge", SingleGen: true, Config: configs[(idx%2)*2].Name} // small-segments-8 / -3
+	add := func(op string, pts []model.Point) {
+		h.Steps = append(h.Steps, step{Op: op, pts: pts, Points: lp(pts)})
+	}
+	base := kit.BaseTime
+	hosts := []map[string]string{{"host": "a", "region": "x"}, {"host": "b", "region": "y"}}
+	var first []model.Point
+	n := 40 + r.IntN(16)
+	for _, se := range hosts {
+		for i := 0; i < n; i++ {
+			p := model.Point{Mst: "m0", Tags: se, T: base + int64(i)*2_000_000_000, Fields: map[string]model.Value{"fi": kit.Value(r, 'i')}}
+			if r.IntN(4) != 0 {
+				p.Fields["ff"] = kit.Value(r, 'f')
+			}
+			first = append(first, p)
+		}
+	}
+	add("write", first)
+	add("flush", nil)
+	var late []model.Point
+	for k := 0; k < 3+r.IntN(4); k++ {
+		i := n/2 + r.IntN(n/2-1) // second half only: the leading segments stay untouched
+		late = append(late, model.Point{Mst: "m0", Tags: hosts[0], T: base + int64(i)*2_000_000_000 + 1_000_000_000,
+			Fields: map[string]model.Value{"fi": kit.Value(r, 'i'), "ff": kit.Value(r, 'f')}})
+	}
+	// de-duplicate the late timestamps
+	seen := map[int64]bool{}
+	var uniq []model.Point
+	for _, p := range late {
+		if !seen[p.T] {
+			seen[p.T] = true
+			uniq = append(uniq, p)
+		}
+	}
+	add("write", uniq)
+	add("flush", nil)
+	add("check", nil)
+	add("merge", nil)
+	add("check", nil)
+	add("compact-full", nil)
+	add("check", nil)
+	return h
+}
+
 func lp(pts []model.Point) []string {
 	out := make([]string, len(pts))
 	for i, p := range pts {
@@ -1096,6 +1146,15 @@ func main() {
 	var wg sync.WaitGroup
 	for i := 0; i < n; i++ {
 		h := genHistory(c.Rand(uint64(8000+i)), i, i%2 == 0, c.Pick(40, 70))
+		w := <-sem
+		wg.Add(1)
+		go func(h *history, w int) {
+			defer func() { sem <- w; wg.Done() }()
+			rn.run(h, w, nil)
+		}(h, w)
+	}
+	for k := 0; k < c.Pick(2, 6); k++ {
+		h := genDenseHistory(c.Rand(uint64(8800+k)), n+k)
 		w := <-sem
 		wg.Add(1)
 		go func(h *history, w int) {
